@@ -1,5 +1,6 @@
 import Sgz.Proofs.Reader
 import Sgz.Proofs.Coords
+import Sgz.Proofs.HeaderReads
 /-!
 # C14 — bounds safety
 
@@ -161,5 +162,35 @@ theorem crossline_number_absent_refused (g : Geo) (hg : g.Valid) (xl0 dxl c : In
     (h : ∀ k : Nat, k < g.n1 → c ≠ xl0 + dxl * (k : Int)) : Coords.readCrosslineNumber g xl0 dxl c = .error .index := by
   unfold Coords.readCrosslineNumber
   rw [not2d_of_valid g hg, Coords.coordToIndex_absent xl0 dxl g.n1 c h]; rfl
+
+/-! ### trace headers (Model/HeaderReads): after any history of header operations on the reader, in either padding mode -/
+
+/-- unstructured 3D file: a header ordinal at or beyond the number of populated grid slots is refused -/
+theorem header_beyond_tracecount (h : HeaderReads.HFile) (il : Nat) (st : HeaderReads.HSt)
+    (hinv : HeaderReads.HInv h il st) (t : Nat) (loadAll : Bool)
+    (h3 : h.is3d = true) (hs : h.structured = false) (hsto : HeaderReads.hasStored h = true)
+    (ht : (HeaderReads.positions h il).length ≤ t) :
+    HeaderReads.HR.vals (HeaderReads.genTraceHeader h il st t loadAll).2 = .error .index := by
+  rw [(HeaderReads.genTraceHeader_spec h il st hinv t loadAll (fun x => by rw [hs] at x; cases x) (fun _ _ => hsto)).2,
+    HeaderReads.headerCanon_unstructured h il t h3 hs hsto, List.getElem?_eq_none ht]
+
+/-- … and one below it returns the header stored at the grid slot of that trace -/
+theorem header_within_tracecount (h : HeaderReads.HFile) (il : Nat) (st : HeaderReads.HSt)
+    (hinv : HeaderReads.HInv h il st) (t : Nat) (loadAll : Bool)
+    (h3 : h.is3d = true) (hs : h.structured = false) (hsto : HeaderReads.hasStored h = true)
+    (ht : t < (HeaderReads.positions h il).length) :
+    HeaderReads.HR.vals (HeaderReads.genTraceHeader h il st t loadAll).2
+      = .ok (HeaderReads.headerAt h ((HeaderReads.positions h il)[t])) := by
+  rw [(HeaderReads.genTraceHeader_spec h il st hinv t loadAll (fun x => by rw [hs] at x; cases x) (fun _ _ => hsto)).2,
+    HeaderReads.headerCanon_unstructured h il t h3 hs hsto, List.getElem?_eq_getElem ht]
+
+/-- structured 3D files and 2D lines: a header ordinal at or beyond the trace count is refused -/
+theorem header_beyond_grid (h : HeaderReads.HFile) (il : Nat) (st : HeaderReads.HSt)
+    (hinv : HeaderReads.HInv h il st) (t : Nat) (loadAll : Bool)
+    (hwf : h.structured = true → h.is3d = true) (hd : (h.is3d && !h.structured) = false)
+    (hsto : HeaderReads.hasStored h = true) (ht : h.grid ≤ t) :
+    HeaderReads.HR.vals (HeaderReads.genTraceHeader h il st t loadAll).2 = .error .index := by
+  rw [(HeaderReads.genTraceHeader_spec h il st hinv t loadAll hwf (fun a b => by simp [a, b] at hd)).2,
+    HeaderReads.headerCanon_direct h il t hd hsto, if_neg (Nat.not_lt.mpr ht)]
 
 end Sgz.Props.C14
